@@ -192,7 +192,17 @@ func runC08(c c08Case) (nontrivial bool, err error) {
 			}
 			prev = sh
 			// results of MarshalBinary / CloneTo must survive later changes to m
-			mb, _ := m.MarshalBinary()
+			mb, merr := m.MarshalBinary()
+			if merr != nil || !bytes.Equal(mb, m.Raw) || (len(mb) > 0 && len(m.Raw) > 0 && &mb[0] == &m.Raw[0]) {
+				return nontrivial, fmt.Errorf("use %d: MarshalBinary returned (%d bytes, %v), want a copy of the %d raw bytes", i, len(mb), merr, len(m.Raw))
+			}
+			if gb, gerr := m.GobEncode(); gerr != nil || !bytes.Equal(gb, m.Raw) {
+				return nontrivial, fmt.Errorf("use %d: GobEncode does not return the raw bytes", i)
+			}
+			var sink bytes.Buffer
+			if n, werr := m.WriteTo(&sink); werr != nil || int(n) != len(m.Raw) || !bytes.Equal(sink.Bytes(), m.Raw) {
+				return nontrivial, fmt.Errorf("use %d: WriteTo wrote %d bytes (%v), want the %d raw bytes", i, n, werr, len(m.Raw))
+			}
 			marshaled, marshaledWant = mb, append([]byte(nil), mb...)
 			clone := new(stun.Message)
 			if cerr := m.CloneTo(clone); cerr != nil {
